@@ -683,7 +683,44 @@ def subprocess_imports_tree():
     return p.stdout.strip()
 
 
+# ----------------------------------------------------------------------------- histories
+def history_roundtrip(t, m, report):
+    """"every internal sparse layout reachable through the public API": in every state the history explorer
+    reaches (ids of the operation alphabet are inside C03's id domain) the TSV text must re-import to the
+    same ids and bit-identical values"""
+    import numpy as np
+    from biom import Table
+    from .. import observe as O
+    if 0 in t.shape:
+        return
+    dense = np.asarray(t.matrix_data.toarray(), float)
+    if not np.isfinite(dense).all():
+        return
+    oids, sids, bits = O.ids(t, 'observation'), O.ids(t, 'sample'), O.dense_bits(t)
+    try:
+        text = t.to_tsv()
+        r = Table.from_tsv(text.splitlines(), None, None, lambda x: x)
+    except Exception as e:
+        report('history:raised:' + type(e).__name__, 'TSV round trip raised %s: %s' % (type(e).__name__, e))
+        return
+    if O.ids(r, 'observation') != oids or O.ids(r, 'sample') != sids:
+        report('history:read-ids', 'ids %r / %r, expected %r / %r' % (O.ids(r, 'observation'), O.ids(r, 'sample'), oids, sids))
+    elif O.dense_bits(r) != bits:
+        report('history:read-values', 'matrix %r, expected %r' % (r.matrix_data.toarray().tolist(), dense.tolist()))
+    else:
+        report.count('clause:history-roundtrip')
+
+
+def history_spec(depth):
+    from .. import explorer as E
+    from .. import ops as OPS
+    return E.Spec(OPS.start_tables(), OPS.all_ops(), depth, check_ops=(), on_state=history_roundtrip,
+                  label='histories-d%d' % depth)
+
+
 def run(run):
+    from .. import explorer as E
+    E.explore(run, history_spec(2 if run.quick else 3))
     cs = cases(run.tier, run.seed)
     ok, dropped = admissible_styles()
     if not run.quick:
@@ -716,7 +753,7 @@ def run(run):
         'writer_x_reader': 'every reader is run on every *distinct* text of a table (texts of two writers '
                            'that are character-identical are read once; counters text-identical:*)',
         'subprocess_cases': c.get('prod:SUB', 0), 'cases': len(cs)}
-    need = ['clause:text-ids', 'clause:text-values', 'clause:text-metadata', 'clause:read-ids',
+    need = ['clause:history-roundtrip', 'clause:text-ids', 'clause:text-values', 'clause:text-metadata', 'clause:read-ids',
             'clause:read-values', 'clause:read-metadata'] + \
         ['reader:' + r for r in READERS] + ['writer:' + w for w in WRITERS] + \
         ['prod:A', 'prod:CV', 'prod:B-ids', 'prod:B-md', 'prod:V'] + ['style:' + s for s in ok] + \
@@ -737,4 +774,7 @@ def run(run):
 
 
 def replay(case):
+    if 'history' in case:
+        from .. import explorer as E
+        return E.replay_history(history_spec(len(case['history'])), case)
     return P.replay_case(check, case)
